@@ -497,7 +497,9 @@ Definition worker_qi (c : ctx) (l : ledger) (first : bool) (e : wenv) (t : tx) :
               if c_gaslimit c <? p_used p then fail deleted 42 (p_gp p)
               else if negb first && negb (check_denominations (wi_dens ia) (p_outdens p)) then fail deleted 40 (p_gp p)
               else (mkW deleted (p_gp p) (p_used p) (w_rlim e - p_rgas p) (w_plim e - p_pgas p),
-                    Ok (mkRes (p_fee p) (p_etxs p) (p_used p - w_used e) (wi_spent ia) (p_creates p)))
+                    (* receipt.GasUsed = gasUsed - env.wo.GasUsed() is evaluated after
+                       env.wo.Header().SetGasUsed(gasUsed): always 0 in the worker's receipt *)
+                    Ok (mkRes (p_fee p) (p_etxs p) (p_used p - p_used p) (wi_spent ia) (p_creates p)))
           end
       end
   end.
